@@ -5,8 +5,8 @@
      raw units (anything but quote, backslash, LF, TAB, CR),
      backslash + one of  quote backslash slash b t n f r,
      backslash + u|U + four units read as hexadecimal (not a high surrogate),
-     a high surrogate escape + two units + four units (the pair; the reader checks neither
-     the two units nor the range of the second half).
+     a high surrogate escape + backslash + u|U + four units (the pair; after D92 the reader
+     checks that the second half is an escape, but not the range of its value).
    [Val w r v r']: a value [v] can be read off the front of [r], leaving [r'] -- the accepted
    language of parseValue as an inductive grammar (RFC 8259 plus what the reader adds: control
    characters other than LF TAB CR inside strings, backslash-U, unchecked second halves, and
@@ -44,9 +44,9 @@ Inductive SBody (w : N) : list N -> list N -> Prop :=
 | SB_u ch h1 h2 h3 h4 t d :
     esc_simple ch = None -> is_u ch = true -> is_high (hex4v h1 h2 h3 h4) = false -> SBody w t d ->
     SBody w (jc_bslash :: ch :: h1 :: h2 :: h3 :: h4 :: t) (to_utf w (hex4v h1 h2 h3 h4) ++ d)
-| SB_pair ch h1 h2 h3 h4 x1 x2 l1 l2 l3 l4 t d :
-    esc_simple ch = None -> is_u ch = true -> is_high (hex4v h1 h2 h3 h4) = true -> SBody w t d ->
-    SBody w (jc_bslash :: ch :: h1 :: h2 :: h3 :: h4 :: x1 :: x2 :: l1 :: l2 :: l3 :: l4 :: t)
+| SB_pair ch h1 h2 h3 h4 ch2 l1 l2 l3 l4 t d :       (* D92: the low half is another \u escape (its VALUE stays unchecked) *)
+    esc_simple ch = None -> is_u ch = true -> is_high (hex4v h1 h2 h3 h4) = true -> is_u ch2 = true -> SBody w t d ->
+    SBody w (jc_bslash :: ch :: h1 :: h2 :: h3 :: h4 :: jc_bslash :: ch2 :: l1 :: l2 :: l3 :: l4 :: t)
             (to_utf w (pair_code (hex4v h1 h2 h3 h4) (hex4v l1 l2 l3 l4)) ++ d).
 
 (* what the number scanner hands back, as a value *)
